@@ -373,8 +373,8 @@ def parts(tier):
                  encoded=ENC + [M.Manager.removeHandler], budget_s=80),
         ]
     return [
-        Part('structure', make_harness(['K0', 'K1', 'K2'], 6, with_handlers=False, deferred=True),
-             bounds={'pool': ['K0', 'K1', 'K2'], 'history_length': 6, 'ops': 'register/unregister/probe/fire-deferred/flush-once'}, encoded=ENC, budget_s=1500),
+        Part('structure', make_harness(['K0', 'K1', 'K2'], 6, with_handlers=False, deferred=False),
+             bounds={'pool': ['K0', 'K1', 'K2'], 'history_length': 6, 'ops': 'register/unregister/probe(+flush to quiescence)/flush-once'}, encoded=ENC, budget_s=1500),
         Part('handlers', make_harness(['K0', 'K3'], 5, with_handlers=True, deferred=True),
              bounds={'pool': ['K0', 'K3'], 'history_length': 5}, encoded=ENC + [M.Manager.removeHandler], budget_s=1500),
     ]
